@@ -445,4 +445,118 @@ def decPublishId : Node → Option String
     else none
   | .text _ => none
 
+/-! ### enum-named elements (`internal/saslerr`: the condition's name is the element's name)
+
+A stringer table `names` and the writer's guard, read from the source: the writer emits an
+element named `names[n]` exactly for `lo ≤ n < hi` and nothing otherwise.  Beyond the table the
+stringer falls back to `Type(n)`, which is not an XML name: the guard has to stay inside. -/
+
+def isNameStart (c : Char) : Bool := c.isAlpha || c = '_'
+def isNameChar (c : Char) : Bool := c.isAlphanum || c = '_' || c = '-' || c = '.'
+
+/-- the ASCII subset of XML's NCName (enough for every name the library generates) -/
+def isNCName (s : String) : Bool :=
+  match s.toList with
+  | [] => false
+  | c :: cs => isNameStart c && cs.all isNameChar
+
+structure EnumTable where
+  names : List String
+  lo : Nat
+  hi : Nat
+  deriving Repr, DecidableEq, Inhabited
+
+/-- the guard stays inside the table and every name it lets through is an XML name -/
+def EnumTable.ok (t : EnumTable) : Bool :=
+  decide (t.lo ≤ t.hi) && decide (t.hi ≤ t.names.length) && ((t.names.drop t.lo).take (t.hi - t.lo)).all isNCName
+
+/-- `Condition.TokenReader` -/
+def encCond (sp : String) (t : EnumTable) (n : Nat) : List Node :=
+  if t.lo ≤ n ∧ n < t.hi then
+    match t.names[n]? with
+    | some nm => [.elem ⟨sp, nm⟩ [] []]
+    | none => []
+  else []
+
+/-- `Condition.UnmarshalXML`: the first defined, non-zero condition with that name, else 0 -/
+def decCond (t : EnumTable) (loc : String) : Nat :=
+  let i := t.names.idxOf loc
+  if 1 ≤ i ∧ i < t.names.length then i else 0
+
+/-- every condition the writer emits is read back (decidable for a concrete table) -/
+def EnumTable.roundTrips (t : EnumTable) : Bool :=
+  (List.range t.hi).all fun n =>
+    decide (n < t.lo) || (match t.names[n]? with | some nm => decCond t nm == n && nm != "text" | none => false)
+
+structure SaslErr where
+  cond : Nat
+  lang : String
+  text : String
+  deriving DecidableEq, Repr, Inhabited
+
+def nsSASL := "urn:ietf:params:xml:ns:xmpp-sasl"
+
+/-- `saslerr.Error.TokenReader` -/
+def encSaslErr (t : EnumTable) (e : SaslErr) : Node :=
+  .elem ⟨nsSASL, "failure"⟩ []
+    (encCond nsSASL t e.cond ++
+      (if e.text = "" then [] else
+        [.elem ⟨nsSASL, "text"⟩ (if e.lang = "" then [] else [⟨⟨nsXML, "lang"⟩, e.lang⟩]) (textKid e.text)]))
+
+def firstNonText : List Node → Option String
+  | [] => none
+  | .elem n _ _ :: rest => if n.loc = "text" then firstNonText rest else
+      (match firstNonText rest with | some l => some l | none => some n.loc)
+  | .text _ :: rest => firstNonText rest
+
+/-- `saslerr.Error.UnmarshalXML`: the condition is the (last) child that is not a text element, the
+text is the first text element -/
+def decSaslErr (t : EnumTable) : Node → Option SaslErr
+  | .elem _ _ ks =>
+    let c := match firstNonText ks with | some l => decCond t l | none => 0
+    match (kidsNamed "text" ks).head? with
+    | some (ta, tk) => some ⟨c, attrOrEmpty ta "lang", textOf tk⟩
+    | none => some ⟨c, "", ""⟩
+  | .text _ => none
+
+def canonSaslErr (t : EnumTable) (e : SaslErr) : SaslErr :=
+  { cond := if t.lo ≤ e.cond ∧ e.cond < t.hi then e.cond else 0
+    lang := if e.text = "" then "" else e.lang, text := e.text }
+
+/-! ### the MUC join payload (`muc/options.go`, unexported) -/
+
+structure MucJoin where
+  maxStanzas : Option String
+  maxChars : Option String
+  seconds : Option String
+  since : Option String
+  password : String
+  deriving DecidableEq, Repr, Inhabited
+
+def nsMuc := "http://jabber.org/protocol/muc"
+
+def optAttrO (loc : String) : Option String → List Attr
+  | some v => [at' loc v]
+  | none => []
+
+def encMucJoin (j : MucJoin) : Node :=
+  .elem ⟨nsMuc, "x"⟩ []
+    ((if j.maxStanzas.isNone && j.maxChars.isNone && j.seconds.isNone && j.since.isNone then []
+      else [.elem ⟨nsMuc, "history"⟩
+        (optAttrO "maxchars" j.maxChars ++ optAttrO "maxstanzas" j.maxStanzas ++ optAttrO "seconds" j.seconds
+          ++ optAttrO "since" j.since) []])
+      ++ (if j.password = "" then [] else [leaf nsMuc "password" j.password]))
+
+/-- `config.UnmarshalXML`: the attributes of every `history` child (later ones overwrite), the first
+character-data token of every `password` child -/
+def decMucJoin : Node → Option MucJoin
+  | .elem _ _ ks =>
+    let ha := (kidsNamed "history" ks).flatMap fun p => p.1
+    some { maxStanzas := attrLast ha "maxstanzas", maxChars := attrLast ha "maxchars"
+           seconds := attrLast ha "seconds", since := attrLast ha "since"
+           password := match (kidsNamed "password" ks).getLast? with
+             | some (_, .text s :: _) => s
+             | _ => "" }
+  | .text _ => none
+
 end XmppModel.Payloads
